@@ -453,15 +453,60 @@ func (s *Sched) describeStuck() string {
 	return sb.String()
 }
 
-// LockSites returns the sorted sites of tasks stuck on locks (stable signature material).
+// LockSites returns the sorted, de-duplicated lock sites of the tasks that form a cycle in the
+// wait-for graph (stable signature material: bystanders that merely queue behind the cycle, and how
+// many of them there are, depend on the schedule). Without a cycle it returns the sites of every
+// task stuck on a lock.
 func (s *Sched) LockSites() []string {
 	s.mu.Lock()
 	defer s.mu.Unlock()
-	var out []string
+	waits := map[*Task][]*Task{} // task -> holders of the lock it waits for
+	var stuck []*Task
 	for _, t := range s.tasks {
-		if !t.done && t.parked && (t.kind == waitLock || t.kind == waitRLock) {
-			out = append(out, t.site)
+		if t.done || !t.parked || (t.kind != waitLock && t.kind != waitRLock) {
+			continue
 		}
+		stuck = append(stuck, t)
+		if ls := s.locks[t.obj]; ls != nil {
+			if ls.writer != nil {
+				waits[t] = append(waits[t], ls.writer)
+			}
+			for r := range ls.readers {
+				waits[t] = append(waits[t], r)
+			}
+		}
+	}
+	reaches := func(from, to *Task) bool {
+		seen := map[*Task]bool{}
+		stack := append([]*Task{}, waits[from]...)
+		for len(stack) > 0 {
+			x := stack[len(stack)-1]
+			stack = stack[:len(stack)-1]
+			if x == to {
+				return true
+			}
+			if seen[x] {
+				continue
+			}
+			seen[x] = true
+			stack = append(stack, waits[x]...)
+		}
+		return false
+	}
+	set := map[string]bool{}
+	for _, t := range stuck {
+		if reaches(t, t) {
+			set[t.site] = true
+		}
+	}
+	if len(set) == 0 {
+		for _, t := range stuck {
+			set[t.site] = true
+		}
+	}
+	out := make([]string, 0, len(set))
+	for k := range set {
+		out = append(out, k)
 	}
 	sort.Strings(out)
 	return out
